@@ -212,53 +212,101 @@ def h_parse_format_string(ctx):
 
 
 def h_template_fields(ctx):
-    """_template_fields(template): the names str.format will look up are the field names string.Formatter().parse reports - every one of them, in order,
-    except the `None` that stands for trailing literal text; in particular the EMPTY name of an auto-numbered field `{}` is a name (one that no captured
-    column has).  A template str.format cannot read is a ValueError."""
+    """_template_fields(template) = the names str.format(**captures) looks up when it expands the template.  Taken from the language reference
+    (format string syntax), not from the code: the replacement fields string.Formatter().parse reports, every one in order, except the `None` that stands
+    for trailing literal text - the EMPTY name of an auto-numbered field `{}` is a name (one that no captured column has) - and, because "a format_spec
+    field can also include nested replacement fields within it", after each name the lookups of its format spec (none for an empty one).  A template
+    str.format cannot read is a ValueError.  A recursive call on a format spec is used through this same contract (partial correctness)."""
     from pyvc.interp import PyRaise
     sp = Spec()
     I = Interp(ctx, sp)
     SeqObj = z3.SeqSort(ObjS)
     is_none = UF('is_none', ObjS, BoolS)
+    truthy = UF('truthy', ObjS, BoolS)                 # the engine's reading of `if format_spec:` on a value it does not track
+    Nested = UF('str.format.lookups_of_format_spec', ObjS, SeqObj)
     names = ctx.fresh('parsed.field_names', SeqObj)
-    other = [ctx.fresh('parsed.col%d' % j, SeqObj) for j in (0, 2, 3)]
-    for c in other:
+    specs = ctx.fresh('parsed.format_specs', SeqObj)
+    other = [ctx.fresh('parsed.col%d' % j_, SeqObj) for j_ in (0, 3)]
+    for c in other + [specs]:
         ctx.assume(z3.Length(c) == z3.Length(names))
     malformed = bool(ctx.choose(2, 'template_cannot_be_read'))
+    top = {'text': None}
 
     def m_parse(I_, a, k, n):
         if malformed:
             raise PyRaise('ValueError', (), 'Formatter.parse')
-        return SymSeq([other[0], names, other[1], other[2]], 4, ['pyvalue', 'pyvalue', 'pyvalue', 'pyvalue'])
+        return SymSeq([other[0], names, specs, other[1]], 4, ['pyvalue', 'pyvalue', 'pyvalue', 'pyvalue'])
     sp.models['string.Formatter'] = Func(lambda I_, a, k, n: Obj(I_.fresh('formatter', ObjS), 'Formatter'))
     sp.models['method:Obj:Formatter.parse'] = Func(m_parse)
-    Kept = Ghost('TemplateFields', [SeqObj], SeqObj, base=lambda s_: z3.Empty(SeqObj), step=lambda s_, k, acc: z3.If(is_none(s_[k]), acc, z3.Concat(acc, z3.Unit(s_[k]))))
+    x = z3.Const('x', ObjS)
+    ctx.assume(z3.ForAll([x], z3.Implies(z3.Not(truthy(x)), Nested(x) == z3.Empty(SeqObj))))      # an empty format spec ('' is the falsy one) has no replacement fields
+    Look = Ghost('FormatLookups', [SeqObj, SeqObj], SeqObj, base=lambda n_, s_: z3.Empty(SeqObj),
+                 step=lambda n_, s_, k, acc: z3.If(is_none(n_[k]), acc, z3.Concat(acc, z3.Unit(n_[k]), Nested(s_[k]))))
     fi = find_function('tally.format_parser._template_fields')
-    fr = Frame(fi, {})
-    comps = [n for n in ast.walk(fi.node) if isinstance(n, ast.ListComp)]
-    if len(comps) != 1:
-        raise Unsupported('_template_fields: expected one comprehension over Formatter().parse(template)')
-    ordinal = fr.loop_ordinals[id(comps[0])]
+    helpers = {}
+    for q in ('tally.format_parser._replacement_fields',):
+        try:
+            helpers[q] = find_function(q)
+        except Exception:
+            pass
 
     def as_seq(v):
         if isinstance(v, list):
             out = z3.Empty(SeqObj)
-            for x in v:
-                out = z3.Concat(out, z3.Unit(to_z3(x)))
+            for y in v:
+                out = z3.Concat(out, z3.Unit(to_z3(y)))
             return out
-        return v.cols[0]
-    sp.loops[('tally.format_parser._template_fields', ordinal)] = LoopSpec(
-        lambda I_, env, k, it: {'kept_so_far_are_the_names_that_are_not_None': as_seq(env['$acc%d' % ordinal]) == Kept(names, k)},
-        {'$acc%d' % ordinal: lambda c: SymSeq([c.fresh('kept', SeqObj)], None, ['pyvalue'])}, kind='property', unfold=lambda I_, env, k, it: Kept.unfold(names, k))
-    for f in Kept.unfold(names, z3.IntVal(-1)):
-        ctx.assume(f)
+        if isinstance(v, SymSeq):
+            return v.cols[0]
+        raise Unsupported('the collected names are not a list (%r)' % (v,))
+
+    def loops_over_parse(f):
+        """(ordinal, accumulator variable) of every loop or comprehension of f that runs over <...>.parse(...)"""
+        fr = Frame(f, {})
+        out = []
+        for n in ast.walk(f.node):
+            it = None
+            if isinstance(n, ast.ListComp):
+                it, acc = n.generators[0].iter, '$acc%d' % fr.loop_ordinals[id(n)]
+            elif isinstance(n, ast.For):
+                it = n.iter
+                apps = [c.func.value.id for c in ast.walk(n) if isinstance(c, ast.Call) and isinstance(c.func, ast.Attribute) and c.func.attr in ('append', 'extend')
+                        and isinstance(c.func.value, ast.Name)]
+                acc = apps[0] if apps and len(set(apps)) == 1 else None
+            if it is not None and isinstance(it, ast.Call) and isinstance(it.func, ast.Attribute) and it.func.attr == 'parse':
+                if acc is None:
+                    raise Unsupported('%s: the loop over parse() collects into more than one list' % f.qualname)
+                out.append((fr.loop_ordinals[id(n)], acc))
+        return out
+    found = 0
+    for f in [fi] + list(helpers.values()):
+        for ordinal, acc in loops_over_parse(f):
+            found += 1
+            sp.loops[(f.qualname, ordinal)] = LoopSpec(
+                (lambda acc_: lambda I_, env, k, it: {'collected_so_far_are_the_lookups_of_the_fields_read_so_far': as_seq(env[acc_]) == Look(names, specs, k)})(acc),
+                {acc: lambda c: SymSeq([c.fresh('kept', SeqObj)], None, ['pyvalue'])}, kind='property', unfold=lambda I_, env, k, it: Look.unfold(names, specs, k))
+    if found != 1:
+        raise Unsupported('_template_fields: expected exactly one loop over Formatter().parse(text) in it or its helper, found %d' % found)
+    for q, hf in helpers.items():
+        def m_helper(I_, a, k, n, hf=hf):
+            if top['text'] is None:                      # the call on the template itself: the body is verified
+                top['text'] = a[0]
+                return I_.call_function(hf, list(a))
+            v = a[0]                                      # a recursive call, on a format spec: by this contract, its lookups
+            if not (isinstance(v, Obj) or z3.is_expr(v)):
+                raise Unsupported('recursive call on %r' % (v,))
+            return SymSeq([Nested(to_z3(v))], None, ['pyvalue'])
+        sp.models[q.rsplit('.', 1)[1]] = Func(m_helper, q.rsplit('.', 1)[1])
+    for f_ in Look.unfold(names, specs, z3.IntVal(-1)):
+        ctx.assume(f_)
     try:
         r = I.call_function(fi, [ctx.fresh('template', StrS)])
     except PyRaise as e:
         ctx.check('C18.template_fields.unreadable_template_is_a_ValueError', z3.BoolVal(malformed and e.cls == 'ValueError'), 'property')
         ctx.cover('_template_fields.raises')
         return
-    ctx.check('C18.template_fields.every_field_name_is_kept_only_None_is_dropped', z3.BoolVal(not malformed) if not isinstance(r, (SymSeq, list)) else as_seq(r) == Kept(names, z3.Length(names)), 'property')
+    ctx.check('C18.template_fields.every_name_str_format_looks_up_is_reported_nested_format_specs_included',
+              z3.BoolVal(not malformed) if not isinstance(r, (SymSeq, list)) else as_seq(r) == Look(names, specs, z3.Length(names)), 'property')
     ctx.cover('_template_fields.returns')
 
 
@@ -296,9 +344,21 @@ def h_position_reading(ctx):
     ctx.check('lemma.position_reading.%d.step' % which, R(k + 1), 'property')
 
 
+def _existing(*qualnames):
+    """helpers that are under the contract when the code has them (a tree without them is judged by the contract all the same)"""
+    out = []
+    for q in qualnames:
+        try:
+            find_function(q)
+            out.append(q)
+        except Exception:
+            pass
+    return out
+
+
 def harnesses(tier):
     return [Harness('parse_format_string', h_parse_format_string, [Q]),
-            Harness('_template_fields', h_template_fields, ['tally.format_parser._template_fields']),
+            Harness('_template_fields', h_template_fields, ['tally.format_parser._template_fields'] + _existing('tally.format_parser._replacement_fields')),
             Harness('lemma.position_reading', h_position_reading, [])]
 
 
